@@ -1,0 +1,72 @@
+//go:build verif
+
+package main
+
+// Contracts checked by /verif (govc) for the command closures of main.go, keyed by command name.
+// Comments only; see /verif/DESIGN.md.
+
+// ---------------------------------------------------------------------------------------
+// C19 / C15 — CLI: exit status tells the truth, stdout carries exactly the proof, errors abort
+// ---------------------------------------------------------------------------------------
+
+//@ func cmd:prove
+//@   property C19 C15
+//@   let mode = cli.flagStr(context, "mode")
+//@   ensures result == nil ==> (mode == "insertion" || mode == "deletion")
+//@   ensures result != nil ==> stdoutWrites == 0
+//@   ensures result == nil ==> stdoutWrites == 1
+//@   ensures !called("SetJSONOutput")
+//@   assert@before:ReadSystemFromFile arg0 == cli.flagStr(context, "keys-file")
+//@   assert@before:ProveInsertion origin(ps, "ReadSystemFromFile.0") && mode == "insertion"
+//@   assert@before:ProveDeletion origin(ps, "ReadSystemFromFile.0") && mode == "deletion"
+//@   assert@return result == nil ==> err == nil && origin(err, "ProveInsertion|ProveDeletion") && origin(proof, "ProveInsertion.0|ProveDeletion.0")
+//@   assert@return result == nil ==> stdoutLast == r
+
+//@ func cmd:verify
+//@   property C19 C15
+//@   let mode = cli.flagStr(context, "mode")
+//@   ensures result == nil ==> (mode == "insertion" || mode == "deletion")
+//@   ensures result == nil ==> str.isNum(cli.flagStr(context, "input-hash"))
+//@   assert@before:ReadSystemFromFile arg0 == cli.flagStr(context, "keys-file")
+//@   assert@before:VerifyInsertion origin(ps, "ReadSystemFromFile.0") && mode == "insertion" && inputHash == str.num(cli.flagStr(context, "input-hash"))
+//@   assert@before:VerifyDeletion origin(ps, "ReadSystemFromFile.0") && mode == "deletion" && inputHash == str.num(cli.flagStr(context, "input-hash"))
+//@   assert@return result == nil ==> err == nil && origin(err, "VerifyInsertion|VerifyDeletion")
+
+//@ func cmd:setup
+//@   property C19 C11
+//@   let mode = cli.flagStr(context, "mode")
+//@   ensures result == nil ==> (mode == "insertion" || mode == "deletion")
+//@   assert@before:SetupInsertion mode == "insertion" && treeDepth == cli.flagInt(context, "tree-depth") % 4294967296 && batchSize == cli.flagInt(context, "batch-size") % 4294967296
+//@   assert@before:SetupDeletion mode == "deletion" && treeDepth == cli.flagInt(context, "tree-depth") % 4294967296 && batchSize == cli.flagInt(context, "batch-size") % 4294967296
+//@   assert@before:WriteRawTo origin(system, "SetupInsertion.0|SetupDeletion.0") && file.path == cli.flagStr(context, "output")
+//@   assert@return result == nil ==> called("WriteRawTo") && err == nil && origin(err, "WriteRawTo")
+
+//@ func cmd:import-setup
+//@   property C19 C11 C12
+//@   let mode = cli.flagStr(context, "mode")
+//@   ensures result == nil ==> (mode == "insertion" || mode == "deletion")
+//@   assert@before:ImportInsertionSetup mode == "insertion" && treeDepth == cli.flagInt(context, "tree-depth") % 4294967296 && batchSize == cli.flagInt(context, "batch-size") % 4294967296
+//@   assert@before:ImportDeletionSetup mode == "deletion" && treeDepth == cli.flagInt(context, "tree-depth") % 4294967296 && batchSize == cli.flagInt(context, "batch-size") % 4294967296
+//@   assert@before:WriteRawTo origin(system, "ImportInsertionSetup.0|ImportDeletionSetup.0") && file.path == cli.flagStr(context, "output")
+//@   assert@return result == nil ==> called("WriteRawTo") && err == nil && origin(err, "WriteRawTo")
+
+//@ func cmd:r1cs
+//@   property C19 C12
+//@   let mode = cli.flagStr(context, "mode")
+//@   ensures result == nil ==> (mode == "insertion" || mode == "deletion")
+//@   assert@before:BuildR1CSInsertion mode == "insertion" && treeDepth == cli.flagInt(context, "tree-depth") % 4294967296 && batchSize == cli.flagInt(context, "batch-size") % 4294967296
+//@   assert@before:BuildR1CSDeletion mode == "deletion" && treeDepth == cli.flagInt(context, "tree-depth") % 4294967296 && batchSize == cli.flagInt(context, "batch-size") % 4294967296
+
+//@ func cmd:convert-to-raw
+//@   property C11 C15 C19
+//@   assert@before:ReadSystemFromFile arg0 == cli.flagStr(context, "input")
+//@   assert@before:WriteRawTo origin(ps, "ReadSystemFromFile.0") && file.path == cli.flagStr(context, "output")
+//@   assert@return result == nil ==> called("WriteRawTo") && err == nil && origin(err, "WriteRawTo")
+
+//@ func cmd:export-vk
+//@   property C15
+//@   assert@before:ReadSystemFromFile arg0 == cli.flagStr(context, "keys-file")
+
+//@ func cmd:export-solidity
+//@   property C15
+//@   assert@before:ReadSystemFromFile arg0 == cli.flagStr(context, "keys-file")
